@@ -186,6 +186,10 @@ def _split_blocks(out):
 
 
 def run_unit(repo, unit, contracts_dir, tier='quick', jobs=8, keep=False):
+    """Kani harnesses (kinds K, Kb) through cargo kani; witness-search harnesses (kind W) natively, in
+    parallel.  A W harness never proves anything: it only looks for a concrete input on which the real
+    code violates the stated postcondition (reported as a violation with that input replayed)."""
+    import threading
     t0 = time.time()
     res = dict(unit=unit, engine='kani', status='undecided', reason='', harnesses=[], failures=[],
                applied=[], wall_s=0.0, stubs=[])
@@ -197,6 +201,8 @@ def run_unit(repo, unit, contracts_dir, tier='quick', jobs=8, keep=False):
     if not harnesses:
         res['reason'] = 'no harnesses registered'
         return res
+    w_h = [h for h in harnesses if h['kind'] == 'W']
+    k_h = [h for h in harnesses if h['kind'] != 'W']
     d = lock = None
     try:
         try:
@@ -205,6 +211,97 @@ def run_unit(repo, unit, contracts_dir, tier='quick', jobs=8, keep=False):
             res['reason'] = 'extraction: %s' % e
             return res
         res['applied'] = applied
+        wout = {}
+        wt = None
+        if w_h:
+            wt = threading.Thread(target=lambda: wout.update(search_phase(d, feats, w_h, tier)))
+            wt.start()
+        if k_h:
+            _kani_phase(d, feats, k_h, jobs, res)
+        else:
+            res['status'] = 'ok'
+        if wt:
+            wt.join()
+            res['harnesses'] += wout.get('harnesses', [])
+            if wout.get('failures'):
+                res['failures'] += wout['failures']
+                res['status'] = 'violation'
+            elif wout.get('undecided') and res['status'] == 'ok':
+                res['status'] = 'undecided'
+                res['reason'] = wout['undecided']
+                res['diagnostics'] = wout.get('diagnostics', '')
+        return res
+    finally:
+        res['wall_s'] = time.time() - t0
+        if d and not keep:
+            cleanup(d, lock)
+        elif d:
+            res['scratch'] = d
+
+
+def search_phase(d, feats, w_h, tier):
+    """native witness search: the W harnesses run as #[test]s over biased random inputs"""
+    out = dict(harnesses=[], failures=[])
+    env = dict(os.environ)
+    env['CARGO_NET_OFFLINE'] = 'true'
+    env['CARGO_TARGET_DIR'] = os.path.join(CACHE, 'replay-target')
+    env['RUSTFLAGS'] = '--cfg verif_replay -A warnings --check-cfg cfg(verif_replay) --check-cfg cfg(kani)'
+    env['RUST_BACKTRACE'] = '0'
+    env.pop('VERIF_REPLAY_VALS', None)
+    seed = int(os.environ.get('VERIF_SEED', '0') or 0) + 1
+    env['VERIF_SEARCH_SEED'] = str(seed)
+    tlock = open(os.path.join(CACHE, 'replay-target.lock'), 'w')
+    fcntl.flock(tlock, fcntl.LOCK_EX)
+    try:
+        for h in w_h:
+            n = int(h.get('n', 20000)) * (5 if tier == 'thorough' else 1)
+            env['VERIF_SEARCH_N'] = str(n)
+            cmd = ['cargo', 'test', '--offline', '--lib', '--features', feats, '--', '--nocapture',
+                   '--test-threads', '1', '::' + h['name']]
+            rec = dict(name=h['name'], kind='W', fn=h['fn'], bound='witness search over %d biased random inputs (seed %d); proves nothing' % (n, seed),
+                       status='undecided', checks=0)
+            t1 = time.time()
+            try:
+                p = subprocess.run(cmd, cwd=d, env=env, capture_output=True, text=True, timeout=h['timeout'] + 1500)
+                o = p.stdout + '\n' + p.stderr
+            except subprocess.TimeoutExpired:
+                o = 'timeout'
+            rec['wall_s'] = round(time.time() - t1, 1)
+            mf = re.search(r'SEARCH-FOUND %s vals=(\S*) msg=(.*)' % re.escape(h['name']), o)
+            md = re.search(r'SEARCH-DONE %s tried=(\d+) accepted=(\d+)' % re.escape(h['name']), o)
+            if mf:
+                vals = [[int(b) for b in v.split(',')] for v in mf.group(1).split(';') if v]
+                rec['status'] = 'failed'
+                rec['failed_checks'] = [dict(desc=mf.group(2)[:400], file='', line='', within=h['fn'], category='witness-search')]
+                rec['checks_failed'] = 1
+                rec['counterexample'] = dict(vals=vals, pretty=[], check=mf.group(2)[:400])
+                fcntl.flock(tlock, fcntl.LOCK_UN)
+                rec['replay'] = native_replay(d, feats, h['name'], vals)
+                fcntl.flock(tlock, fcntl.LOCK_EX)
+                if rec['replay'].get('confirmed'):
+                    out['failures'].append(rec)
+                else:
+                    rec['status'] = 'undecided'
+                    out['undecided'] = 'witness search %s: candidate did not replay' % h['name']
+            elif md:
+                rec['tried'], rec['accepted'] = int(md.group(1)), int(md.group(2))
+                if rec['accepted'] * 20 < rec['tried']:
+                    rec['status'] = 'vacuous'
+                    out['undecided'] = 'witness search %s: fewer than 5%% of the inputs satisfy the assumptions' % h['name']
+                else:
+                    rec['status'] = 'ok'
+            else:
+                out['undecided'] = 'witness search %s: no result (build failure, hang or crash)' % h['name']
+                out['diagnostics'] = o[-3000:]
+            out['harnesses'].append(rec)
+    finally:
+        fcntl.flock(tlock, fcntl.LOCK_UN)
+        tlock.close()
+    return out
+
+
+def _kani_phase(d, feats, harnesses, jobs, res):
+    if True:
         env = dict(os.environ)
         env['CARGO_NET_OFFLINE'] = 'true'
         env['CARGO_TARGET_DIR'] = os.path.join(CACHE, 'kani-target')
@@ -298,12 +395,6 @@ def run_unit(repo, unit, contracts_dir, tier='quick', jobs=8, keep=False):
         else:
             res['status'] = 'ok'
         return res
-    finally:
-        res['wall_s'] = time.time() - t0
-        if d and not keep:
-            cleanup(d, lock)
-        elif d:
-            res['scratch'] = d
 
 
 def get_counterexample(d, env, feats, rec):
